@@ -266,8 +266,11 @@ class C02(core.Check):
                 docs.append(dict(toks=self._rich_tokens(rng, rng.randint(1, 12)), doctype=rng.choice(doctypes)))
             cases.append(dict(cls=rng.choice(['plain', 'indexed', 'validating']) if rng.random() < 0.9 else 'plain', docs=docs))
         nentry = 40 if self.tier == 'quick' else 300
-        for _ in range(nentry):
-            cases.append(dict(cls='plain', entry=True, docs=[dict(toks=self._rich_tokens(rng, rng.randint(1, 15)), doctype=rng.choice(doctypes))]))
+        for i in range(nentry):
+            toks = self._rich_tokens(rng, rng.randint(1, 15))
+            if i % 2:
+                toks = toks + [['T', 'caf\xe9 \xfcber \xa9']]          # characters whose bytes differ between utf-8 and latin-1
+            cases.append(dict(cls=['plain', 'indexed'][i % 4 // 2], entry=True, docs=[dict(toks=toks, doctype=rng.choice(doctypes))]))
         self.stats.update(small_alphabet_sequences=n_ex, random_sequences=nrand, histories=nhist, entry_point_cases=nentry)
         return cases
 
@@ -367,28 +370,40 @@ class C02(core.Check):
         return None
 
     def _entry_points(self, cls, html, p):
+        """parseStr(bytes in the parser's encoding), parseFile(path), parseFile(file object), filename= : same tree as parseStr(str),
+        for the default encoding and for a parser constructed with another one"""
         import AdvancedHTMLParser as A
         ref = pc.doc_snapshot(p)
         d = tempfile.mkdtemp(dir=str(core.BUILD))
         try:
-            path = os.path.join(d, 'doc.html')
-            with open(path, 'wb') as f:
-                f.write(html.encode('utf-8'))
-            variants = {}
-            q = cls()
-            q.parseStr(html.encode('utf-8'))
-            variants['parseStr(bytes)'] = q
-            q = cls()
-            q.parseFile(path)
-            variants['parseFile(path)'] = q
-            q = cls()
-            with open(path, 'r', encoding='utf-8', newline='') as f:
-                q.parseFile(f)
-            variants['parseFile(file)'] = q
-            variants['filename='] = cls(filename=path)
-            for k, q in variants.items():
-                if pc.doc_snapshot(q) != ref:
-                    return 'entry point %s gives a different tree for %r' % (k, html)
+            for enc in ('utf-8', 'latin-1', 'utf-16'):
+                try:
+                    raw = html.encode(enc)
+                except UnicodeEncodeError:
+                    continue
+                mk = (lambda **kw: cls(**kw)) if enc == 'utf-8' else (lambda **kw: cls(encoding=enc, **kw))
+                path = os.path.join(d, 'doc-%s.html' % enc)
+                with open(path, 'wb') as f:
+                    f.write(raw)
+                variants = {}
+                q = mk()
+                q.parseStr(raw)
+                variants['parseStr(bytes)'] = q
+                q = mk()
+                q.parseStr(html)
+                variants['parseStr(str)'] = q
+                if enc != 'utf-16':        # universal-newline / BOM handling of text files is the codec's business
+                    q = mk()
+                    q.parseFile(path)
+                    variants['parseFile(path)'] = q
+                    q = mk()
+                    with open(path, 'r', encoding=enc, newline='') as f:
+                        q.parseFile(f)
+                    variants['parseFile(file)'] = q
+                    variants['filename='] = mk(filename=path)
+                for k, q in variants.items():
+                    if pc.doc_snapshot(q) != ref:
+                        return 'entry point %s of a %s with encoding %s gives a different tree for %r' % (k, cls.__name__, enc, html)
         finally:
             import shutil
             shutil.rmtree(d, ignore_errors=True)
